@@ -72,6 +72,7 @@ type c11Op struct {
 	sess int8
 	pan  uint8 // 0 = returned normally, else panic class index + 1
 	ok   bool  // SendTo result
+	wstop bool // remove: the connection's writer had already stopped on a send error
 	peer int32 // peer index, -1 none
 	conn int32 // global connection index, -1 none
 	call int64
@@ -88,6 +89,10 @@ type c11Live struct {
 	closed    atomic.Bool
 	delivered atomic.Int64
 	failAfter int64
+}
+
+func (lc *c11Live) writerStopped() bool {
+	return lc.failAfter > 0 && lc.delivered.Load() >= lc.failAfter
 }
 
 type c11Worker struct {
@@ -151,6 +156,7 @@ type c11PanicSample struct {
 	key   string
 	op    c11Op
 	msg   string
+	site  string
 	stack string
 }
 
@@ -178,6 +184,8 @@ type c11Stress struct {
 	res   *c11Result
 	out   string
 	done  atomic.Bool
+
+	lastParked int
 }
 
 func (st *c11Stress) now() int64 { return int64(time.Since(st.t0)) + 1 }
@@ -289,7 +297,7 @@ func (w *c11Worker) do(kind int, sess int, peer int, conn int32, fn func(r *c11O
 			if p := recover(); p != nil {
 				cl := c11ClassifyPanic(p)
 				r.pan = uint8(cl + 1)
-				w.st.notePanic(r, cl, fmt.Sprint(p), string(debug.Stack()))
+				w.st.notePanic(r, cl, fmt.Sprint(p))
 			}
 		}()
 		fn(r)
@@ -301,13 +309,36 @@ func (w *c11Worker) do(kind int, sess int, peer int, conn int32, fn func(r *c11O
 	return r
 }
 
-func (st *c11Stress) notePanic(r *c11Op, class int, msg, stack string) {
+// c11CallerSite returns the innermost hub.go frame of the (panicking) stack, cheaply.
+func c11CallerSite() string {
+	var pcs [32]uintptr
+	n := runtime.Callers(3, pcs[:])
+	fr := runtime.CallersFrames(pcs[:n])
+	for {
+		f, more := fr.Next()
+		if strings.HasSuffix(f.File, "/internal/peers/hub.go") {
+			fn := f.Function
+			if j := strings.LastIndex(fn, "/peers."); j >= 0 {
+				fn = fn[j+7:]
+			}
+			return fmt.Sprintf("%s hub.go:%d", fn, f.Line)
+		}
+		if !more {
+			break
+		}
+	}
+	return "no hub.go frame"
+}
+
+// notePanic runs inside the deferred recover of the panicking operation.
+func (st *c11Stress) notePanic(r *c11Op, class int, msg string) {
 	key := c11PanicKey(r.kind, class)
+	site := c11CallerSite()
 	st.panMu.Lock()
 	st.panSeen[key]++
-	st.panSeen["site:"+c11KindName[r.kind]+" @ "+c11HubSite(stack)]++
+	st.panSeen["site:"+c11KindName[r.kind]+" @ "+site]++
 	if st.panSeen[key] <= 2 {
-		st.panSamples = append(st.panSamples, c11PanicSample{key: key, op: *r, msg: msg, stack: stack})
+		st.panSamples = append(st.panSamples, c11PanicSample{key: key, op: *r, msg: msg, site: site, stack: string(debug.Stack())})
 	}
 	st.panMu.Unlock()
 }
@@ -416,7 +447,7 @@ func (w *c11Worker) opRemove(i int) {
 	lc := w.live[i]
 	w.live[i] = w.live[len(w.live)-1]
 	w.live = w.live[:len(w.live)-1]
-	w.do(c11Remove, lc.sess, lc.peer, lc.idx, func(r *c11Op) { lc.remove() })
+	w.do(c11Remove, lc.sess, lc.peer, lc.idx, func(r *c11Op) { lc.remove() }).wstop = lc.writerStopped()
 	if w.rng.Intn(16) == 0 { // idempotence: the handler's deferred remove after a replacement / CloseSession
 		w.do(c11Remove, lc.sess, lc.peer, lc.idx, func(r *c11Op) { lc.remove() })
 	}
@@ -586,7 +617,7 @@ func (st *c11Stress) run() {
 				for len(w.live) > 0 {
 					lc := w.live[len(w.live)-1]
 					w.live = w.live[:len(w.live)-1]
-					w.do(c11Remove, lc.sess, lc.peer, lc.idx, func(r *c11Op) { lc.remove() })
+					w.do(c11Remove, lc.sess, lc.peer, lc.idx, func(r *c11Op) { lc.remove() }).wstop = lc.writerStopped()
 				}
 				bar.Wait() // B: all removes returned
 				bar.Wait() // C: history judged, logs may be reused
@@ -616,6 +647,7 @@ func (st *c11Stress) run() {
 		bar.Wait() // B
 		snapB := st.hub.VerifSnapshot()
 		tB := st.now()
+		parked, other := c11WriterCensus()
 		var all []c11Op
 		for _, w := range st.workers {
 			all = append(all, w.ops...)
@@ -626,6 +658,7 @@ func (st *c11Stress) run() {
 		h.judge(st.res)
 		h.checkSnapshot(st.res, "partial", snapA, tA, tA2, round)
 		h.checkSnapshot(st.res, "final", snapB, tB, tB, round)
+		h.checkWriters(st.res, parked, other, round)
 		st.res.RoundsDone = round + 1
 		st.res.Counters["quiescence_checks"] += 2
 		st.resMu.Unlock()
@@ -668,9 +701,9 @@ func (st *c11Stress) finishResult() {
 		}
 	}
 	for _, ps := range st.panSamples {
-		res.violate(ps.key, fmt.Sprintf("%s panicked (recovered by the worker): %s at %s", c11KindName[ps.op.kind], ps.msg, c11HubSite(ps.stack)),
+		res.violate(ps.key, fmt.Sprintf("%s panicked (recovered by the worker): %s at %s", c11KindName[ps.op.kind], ps.msg, ps.site),
 			map[string]any{"spec": st.spec, "op": st.opJSON(&ps.op)},
-			map[string]any{"panic": ps.msg, "site": c11HubSite(ps.stack), "stack": c11Trunc(ps.stack, 4000)})
+			map[string]any{"panic": ps.msg, "site": ps.site, "stack": c11Trunc(ps.stack, 4000)})
 	}
 	// panics beyond the stored samples still count
 	for k, n := range res.Panics {
@@ -778,6 +811,33 @@ func (st *c11Stress) monitor() {
 			os.Exit(0)
 		}
 	}
+}
+
+// c11WriterCensus counts the hub's per-connection writer goroutines (closure of Hub.Add):
+// parked = blocked receiving from a send channel that is still open; other = runnable/running
+// (about to exit after a close). close() makes every parked receiver runnable before it returns,
+// so once every closer has returned a parked writer is one whose channel was never closed.
+func c11WriterCensus() (parked, other int) {
+	buf := make([]byte, 8<<20)
+	for {
+		n := runtime.Stack(buf, true)
+		if n < len(buf) {
+			buf = buf[:n]
+			break
+		}
+		buf = make([]byte, 2*len(buf))
+	}
+	for _, g := range strings.Split(string(buf), "\n\n") {
+		if !strings.Contains(g, "internal/peers.(*Hub).Add.func1") {
+			continue
+		}
+		if strings.Contains(g[:strings.IndexByte(g+"\n", '\n')], "[chan receive") {
+			parked++
+		} else {
+			other++
+		}
+	}
+	return
 }
 
 func c11WriteJSON(path string, v any) error {
